@@ -383,6 +383,22 @@ func (c *stepCtx) judge() {
 	if matched == nil {
 		c.modelViolation(outcomes, prevState, obsState, obsValid)
 	}
+	if matched == nil && op.Kind == "switch" && obsValid && c.after[c.target] != c.before[c.target] {
+		// C05: is what was written exactly the first step of the two-step edit?
+		half := *op
+		half.Kind = "stop"
+		half.Args.Summary, half.Args.Resume, half.Args.ResumeNth = nil, false, 0
+		if half.Args.DateSel == "" {
+			half.Args.DateSel = "today" // no fall-back to yesterday for switch
+		}
+		for _, o := range mc.apply(prevState, &half) {
+			if !o.Reject && stateEqual(o.State, obsState) {
+				c.report("C05", "partial-edit-written", "switch", fmt.Sprintf("only the first step of switch (closing the open range) was written; the second step cannot succeed here; file before=%q after=%q", shortText(c.before[c.target], 300), shortText(c.after[c.target], 300)))
+				break
+			}
+		}
+	}
+	c.probes(mc, matched, prevState)
 
 	// --- C11 style ---
 	if !res.Failed && c03.ok && obsValid && matched != nil && !matched.Reject {
@@ -405,6 +421,81 @@ func (c *stepCtx) judge() {
 		if !okAny && firstBad != nil {
 			c.report("C11", firstBad.Rule, firstBad.Site, firstBad.Detail)
 		}
+	}
+}
+
+// probes count the rare conditions the search is meant to reach (evidence only).
+func (c *stepCtx) probes(mc *modelCtx, matched *MOutcome, prev MState) {
+	op := c.op
+	if matched == nil {
+		return
+	}
+	st := func(k string) { c.out.stat("probe_"+k, 1) }
+	if matched.Reject {
+		st("model_reject_" + op.Kind)
+		switch {
+		case strings.Contains(matched.Why, "representable"):
+			st("time_unrepresentable_refused")
+		case strings.Contains(matched.Why, "second open range"):
+			st("second_open_range_refused")
+		case strings.Contains(matched.Why, "end before start"):
+			st("end_before_start_refused")
+		case strings.Contains(matched.Why, "resume"):
+			st("resume_rejected")
+		}
+		return
+	}
+	if c.clockRelative() {
+		y, m, d := mc.clk.targetDate(&op.Args)
+		if t, ok, _ := mc.clk.targetTime(&op.Args, &c.hc.World, y, m, d); ok {
+			mnow := c.clock.Hour()*60 + c.clock.Minute()
+			if t%1440 == 0 && mnow%1440 != 0 {
+				st("rounding_carried_to_midnight")
+			}
+			if t != mnow {
+				st("time_rounded_or_shifted")
+			}
+		}
+		if op.Kind == "stop" && matched.Target >= 0 && matched.Target < len(matched.State) {
+			r := matched.State[matched.Target]
+			if r.key() != dateKey(y, m, d) {
+				st("stop_fell_back_to_previous_day")
+			}
+		}
+	}
+	if matched.IsNew {
+		st("record_created")
+		if !prev.sorted() {
+			st("record_created_in_unsorted_file")
+		}
+	}
+	if matched.Target >= 0 && len(prev.candidates(matched.State[matched.Target].key())) > 1 {
+		st("duplicate_dates_target")
+	}
+	if op.Kind == "pause" {
+		rd := nowReadings(c.res)
+		back, jump := false, false
+		for i := 2; i < len(rd); i++ {
+			d := rd[i].Unix() - rd[i-1].Unix()
+			if d < 0 {
+				back = true
+			}
+			if d > 90 {
+				jump = true
+			}
+		}
+		if back {
+			st("pause_clock_went_back")
+		}
+		if jump {
+			st("pause_clock_jumped_forward")
+		}
+		if len(rd) > 2 && rd[len(rd)-1].Day() != rd[0].Day() {
+			st("pause_across_midnight")
+		}
+	}
+	if op.Args.Resume || op.Args.ResumeNth != 0 {
+		st("resume_accepted")
 	}
 }
 
